@@ -53,7 +53,9 @@ pub fn set_case() -> impl Strategy<Value = SetCase> {
         perm,
         edits: vec![],
     });
-    let rot = (proptest::collection::vec((0.0f32..60.0, 0.0f32..60.0, 2.0f32..40.0, 2.0f32..40.0, prop_oneof![1 => Just(None), 4 => (-3.2f32..3.2).prop_map(Some)]), 1..=8), -1000.0f32..1000.0, perm_strategy(),
+    let rot = (proptest::collection::vec((0.0f32..60.0, 0.0f32..60.0, 2.0f32..40.0, 2.0f32..40.0, prop_oneof![1 => Just(None), 4 => (-3.2f32..3.2).prop_map(Some)]), 1..=8),
+        // near the origin, or a tile far away from it (centres on the coarse f32 grid, sizes kept)
+        prop_oneof![12 => -1000.0f32..1000.0, 1 => Just(16_777_216.0f32), 1 => Just(-30_000_000.0f32)], perm_strategy(),
         // orientation shared by the whole set (a lane of parallel objects), also quarter turns in
         // either direction, exact or a hair off, mixed with unrotated boxes
         prop_oneof![
